@@ -326,6 +326,12 @@ pub fn run(m128: bool, seed: u64, steps: usize, judge: Judge, prefix: &str, ctx:
                 ctx.state(hs.get());
             }
         }
+        // the host takes a snapshot now and then: it costs no emulated time (and changes nothing)
+        if step % 500 == 250 && (seed >> 50) & 1 == 1 {
+            ctx.probe("lockstep_snapshot_saved");
+            let (rec, _out) = crate::host::SimRecorder::new(crate::host::RecorderPlan::default());
+            let _ = e.save_snapshot(rustzx_core::host::SnapshotRecorder::Sna(rec));
+        }
         // a CPU halted with interrupts disabled would idle for the rest of the run: new random state
         if r.halted && !r.iff1 {
             stuck += 1;
